@@ -105,8 +105,9 @@ struct Run {
    std::vector<int> heldRO, heldRW;
    std::vector<int> inCall;              // -1 or the Op kind the thread is inside
    std::vector<int> inCallD;             // its deadline kind
-   std::vector<int> parkedWriter;        // thread is inside LockReadWrite and has parked at least once
-   std::vector<std::vector<int> > writersAhead;  // for a fresh reader inside LockReadOnly: writers that were parked when it arrived
+   std::vector<int> inWW;                // thread is registered in _waitingWriterThreads (refreshed from the real table after every critical section)
+   std::vector<int> wwEpoch;             // incremented each time it gets registered there
+   std::vector<std::vector<std::pair<int,int> > > writersAhead;  // for a fresh reader inside LockReadOnly: (writer, epoch) pairs that were waiting when it arrived
    std::vector<int> upgrading;           // inside LockReadWrite while holding read locks only (the documented drop-and-retake path)
    std::vector<std::string> oracle;
    int idxOf(const muscle_thread_id & id) const {for (size_t i=0; i<ids.size(); i++) if (idValid[i] && ids[i] == id) return (int) i; return -1;}
@@ -182,7 +183,16 @@ static void on_event(const Event & e)
          snprintf(buf, sizeof(buf), "N%d", waiter_of_wc(m, e.ptr)); Scheduler::Note(buf);
          break;
       case K_MUTEX_UNLOCK:
-         if (e.ptr == (const void *) &m._stateMutex && e.aux == 0) Scheduler::Note(dump_state(m));
+         if (e.ptr == (const void *) &m._stateMutex && e.aux == 0)
+         {
+            Scheduler::Note(dump_state(m));
+            for (int t=0; t<r.c->n; t++)
+            {
+               const int now = (r.idValid[t] && m._waitingWriterThreads.ContainsKey(r.ids[t])) ? 1 : 0;
+               if (now && !r.inWW[t]) r.wwEpoch[t]++;
+               r.inWW[t] = now;
+            }
+         }
          break;
       case K_WC_WAIT: case K_WC_TIMEDWAIT:
          snprintf(buf, sizeof(buf), "P%ld", e.aux); Scheduler::Note(buf);
@@ -191,7 +201,6 @@ static void on_event(const Event & e)
             // "timed and try acquisitions return by their deadline": a try call must never park, a timed call must never park without a timeout
             if (r.inCallD[me] == D_TRY) oracle_fail("a try acquisition parked in a wait");
             else if (r.inCallD[me] == D_TIMED && e.kind == K_WC_WAIT) oracle_fail("a timed acquisition parked in a wait that has no timeout");
-            if (r.inCall[me] == OP_LW) r.parkedWriter[me] = 1;
          }
          break;
       case K_WOKEN:   Scheduler::Note("K"); break;
@@ -218,20 +227,23 @@ static void thread_body(int me)
    {
       const Op & op = prog[i];
       const uint64 when = (op.d == D_NEVER) ? MUSCLE_TIME_NEVER : ((op.d == D_TRY) ? 0 : far);
-      r.inCall[me] = op.kind; r.inCallD[me] = op.d; r.parkedWriter[me] = 0;
+      r.inCall[me] = op.kind; r.inCallD[me] = op.d;
       const bool fresh = (r.heldRO[me] == 0 && r.heldRW[me] == 0);
       status_t ret;
       switch(op.kind)
       {
          case OP_LR:
             r.writersAhead[me].clear();
-            if (fresh && r.c->pref) for (int t=0; t<r.c->n; t++) if (t != me && r.parkedWriter[t]) r.writersAhead[me].push_back(t);
+            if (fresh && r.c->pref) for (int t=0; t<r.c->n; t++) if (t != me && r.inWW[t]) r.writersAhead[me].push_back(std::make_pair(t, r.wwEpoch[t]));
             ret = r.rw->LockReadOnly(when);
             if (ret.IsOK())
             {
                // writer preference: a reader that arrived after a parked writer must not be admitted while that writer is still waiting
                for (size_t k=0; k<r.writersAhead[me].size(); k++)
-                  if (r.parkedWriter[r.writersAhead[me][k]]) {std::ostringstream o; o << "writer preference violated: reader t" << me << " overtook waiting writer t" << r.writersAhead[me][k]; oracle_fail(o.str());}
+               {
+                  const int w = r.writersAhead[me][k].first;
+                  if (r.inWW[w] && r.wwEpoch[w] == r.writersAhead[me][k].second) {std::ostringstream o; o << "writer preference violated: reader t" << me << " overtook waiting writer t" << w; oracle_fail(o.str());}
+               }
                r.heldRO[me]++;
             }
             else if (op.d == D_NEVER) oracle_fail("untimed LockReadOnly failed");
@@ -254,7 +266,7 @@ static void thread_body(int me)
             if (ret.IsOK()) r.heldRW[me]--;
             break;
       }
-      r.inCall[me] = -1; r.parkedWriter[me] = 0;
+      r.inCall[me] = -1;
       if (ret.IsError() && !(ret == B_TIMED_OUT) && !(ret == B_LOCK_FAILED)) oracle_fail(std::string("unexpected status ") + ret());
       if ((op.kind == OP_LR || op.kind == OP_LW) && ret == B_LOCK_FAILED) oracle_fail("a lock call returned B_LOCK_FAILED");
       // counts: what the table says this thread holds == what its returned calls entitle it to (also: unchanged after a failure)
@@ -302,7 +314,7 @@ static void setup_run(Run & r, const Case & c, Scheduler & s)
    r.rw = new ReaderWriterMutex(c.pref);
    r.ids.assign(c.n, muscle_thread_id()); r.idValid.assign(c.n, 0);
    r.heldRO.assign(c.n, 0); r.heldRW.assign(c.n, 0); r.inCall.assign(c.n, -1); r.inCallD.assign(c.n, 0);
-   r.parkedWriter.assign(c.n, 0); r.upgrading.assign(c.n, 0); r.writersAhead.assign(c.n, std::vector<int>());
+   r.inWW.assign(c.n, 0); r.wwEpoch.assign(c.n, 0); r.upgrading.assign(c.n, 0); r.writersAhead.assign(c.n, std::vector<std::pair<int,int> >());
    r.oracle.clear();
    s.NameObject(&r.rw->_stateMutex, "sm");
    for (int t=0; t<c.n; t++) s.Spawn([t]{thread_body(t);});
